@@ -177,13 +177,21 @@ Section CChain.
       ereach s0 s x y -> ecreach s0s ss y ins z ->
       ecreach (s0 :: s0s) (s :: ss) x (x :: ins) z.
 
-  (* composition of the stages' stream encoders, in chain order *)
-  Fixpoint Echain (E : cst -> bytes -> bytes) (s0s : list cst) (x : bytes) : bytes :=
-    match s0s with [] => x | s :: t => Echain E t (E s x) end.
+  (* E s0 x y : "y is an encoding of x by a stage created in state s0" (a relation: the
+     bytes a real codec emits may depend on how its input was chunked).
+     Echain E s0s x ins z : z is what the chain makes of x, stage by stage; ins lists the
+     input stream of every stage. *)
+  Inductive Echain (E : cst -> bytes -> bytes -> Prop)
+    : list cst -> bytes -> list bytes -> bytes -> Prop :=
+  | Echain_nil : forall x, Echain E [] x [] x
+  | Echain_cons : forall s t x y ins z,
+      E s x y -> Echain E t y ins z -> Echain E (s :: t) x (x :: ins) z.
 
-  (* the input stream of every stage *)
-  Fixpoint Einputs (E : cst -> bytes -> bytes) (s0s : list cst) (x : bytes) : list bytes :=
-    match s0s with [] => [] | s :: t => x :: Einputs E t (E s x) end.
+  (* the same for encoders that are functions of their input stream *)
+  Fixpoint Echainf (E : cst -> bytes -> bytes) (s0s : list cst) (x : bytes) : bytes :=
+    match s0s with [] => x | s :: t => Echainf E t (E s x) end.
+  Fixpoint Einputsf (E : cst -> bytes -> bytes) (s0s : list cst) (x : bytes) : list bytes :=
+    match s0s with [] => [] | s :: t => x :: Einputsf E t (E s x) end.
 
 End CChain.
 
@@ -205,7 +213,8 @@ Arguments write_session {cst}.
 Arguments ereach {cst}.
 Arguments ecreach {cst}.
 Arguments Echain {cst}.
-Arguments Einputs {cst}.
+Arguments Echainf {cst}.
+Arguments Einputsf {cst}.
 
 (* the triple compress() returns / _after_write records: (insize, foutsize, crc) *)
 Definition info_in (i : Z * Z * Z) : Z := fst (fst i).
@@ -642,29 +651,28 @@ Section CompProofs.
 
   (* ---- flush, under the stream-encoder contract -------------------------- *)
   Section Contract.
-    (* E s0 = total stream encoder of a stage started in state s0: whatever the
-       chunking, the outputs of compress() followed by the output of flush() are
-       E s0 (concatenation of the inputs) *)
-    Variable E : cst -> bytes -> bytes.
+    (* the stream-encoder contract: whatever the chunking, the outputs of compress()
+       followed by the output of flush() are an encoding (E s0) of the concatenation of
+       the inputs *)
+    Variable E : cst -> bytes -> bytes -> Prop.
     (* wf = what the contract may assume of the state a stage is created in (e.g. an
        empty residue buffer) *)
     Variable wf : cst -> Prop.
     Hypothesis enc_contract : forall s0 s cin cout,
-        wf s0 -> ereach cstep s0 s cin cout -> cout ++ snd (cflush s) = E s0 cin.
+        wf s0 -> ereach cstep s0 s cin cout -> E s0 cin (cout ++ snd (cflush s)).
 
     Definition obytes (d : option bytes) : bytes := match d with Some b => b | None => [] end.
 
     Lemma flush_pipe_spec (s0s ss : list cst) (x : bytes) (ins : list bytes) (z : bytes) :
       ecreach cstep s0s ss x ins z -> Forall wf s0s ->
       forall d : option bytes,
-      exists ss' d',
-        flush_pipe cstep cflush ss (map zlen ins) d
-          = Ok (ss', map zlen (Einputs E s0s (x ++ obytes d)), d') /\
-        z ++ obytes d' = Echain E s0s (x ++ obytes d) /\
+      exists ss' ins' d',
+        flush_pipe cstep cflush ss (map zlen ins) d = Ok (ss', map zlen ins', d') /\
+        Echain E s0s (x ++ obytes d) ins' (z ++ obytes d') /\
         (ss <> [] -> d' <> None) /\ (ss = [] -> d' = d).
     Proof.
       induction 1 as [x|s0 s x y s0s ss ins z Hr Hc IH]; intros Hwf d.
-      - exists [], d. simpl. repeat split; congruence.
+      - exists [], [], d. simpl. repeat split; try congruence. apply Echain_nil.
       - inversion Hwf as [|? ? Hwf0 Hwfs]; subst. specialize (IH Hwfs).
         assert (Hcase : (exists b d0, d = Some (b :: d0)) \/ obytes d = []).
         { destruct d as [[|b d0]|]; [right; reflexivity|left; eauto|right; reflexivity]. }
@@ -675,13 +683,13 @@ Section CompProofs.
           destruct (cflush s1) as [s2 o2] eqn:Hf.
           pose proof (@ereach_step cst cstep s0 s x y dd Hr) as Hst. rewrite Hs1 in Hst. cbn [fst snd] in Hst.
           pose proof (enc_contract _ _ _ _ Hwf0 Hst) as Hct. rewrite Hf in Hct. cbn [snd] in Hct.
-          destruct (IH (Some (o1 ++ o2))) as (ss' & d' & Hfp & Hz & Hne & _).
-          cbn [obytes] in Hfp, Hz. rewrite app_assoc, Hct in Hfp, Hz.
-          exists (s2 :: ss'), d'. split; [|split; [|split]].
-          * rewrite Hfp. cbn [bind Einputs map]. now rewrite zlen_app.
-          * cbn [Echain]. exact Hz.
+          destruct (IH (Some (o1 ++ o2))) as (ss' & ins' & d' & Hfp & Hz & Hne & _).
+          cbn [obytes] in Hfp, Hz. rewrite app_assoc in Hz.
+          exists (s2 :: ss'), ((x ++ dd) :: ins'), d'. split; [|split; [|split]].
+          * rewrite Hfp. cbn [bind map]. now rewrite zlen_app.
+          * eapply Echain_cons; [exact Hct|exact Hz].
           * intros _. destruct ss as [|s' ss0].
-            -- inversion Hc; subst. simpl in Hfp. injection Hfp as _ <-. discriminate.
+            -- inversion Hc; subst. simpl in Hfp. injection Hfp as _ _ <-. discriminate.
             -- apply Hne. discriminate.
           * discriminate.
         + assert (Hfl : flush_pipe cstep cflush (s :: ss) (map zlen (x :: ins)) d
@@ -692,13 +700,13 @@ Section CompProofs.
           rewrite Hfl, Hd, app_nil_r. clear Hfl.
           destruct (cflush s) as [s2 o2] eqn:Hf.
           pose proof (enc_contract _ _ _ _ Hwf0 Hr) as Hct. rewrite Hf in Hct. cbn [snd] in Hct.
-          destruct (IH (Some o2)) as (ss' & d' & Hfp & Hz & Hne & _).
-          cbn [obytes] in Hfp, Hz. rewrite Hct in Hfp, Hz.
-          exists (s2 :: ss'), d'. split; [|split; [|split]].
+          destruct (IH (Some o2)) as (ss' & ins' & d' & Hfp & Hz & Hne & _).
+          cbn [obytes] in Hfp, Hz.
+          exists (s2 :: ss'), (x :: ins'), d'. split; [|split; [|split]].
           * rewrite Hfp. reflexivity.
-          * cbn [Echain]. exact Hz.
+          * eapply Echain_cons; [exact Hct|exact Hz].
           * intros _. destruct ss as [|s' ss0].
-            -- inversion Hc; subst. simpl in Hfp. injection Hfp as _ <-. discriminate.
+            -- inversion Hc; subst. simpl in Hfp. injection Hfp as _ _ <-. discriminate.
             -- apply Hne. discriminate.
           * discriminate.
     Qed.
@@ -708,18 +716,18 @@ Section CompProofs.
       ecreach cstep s0s (cstages st) X ins (cout st) -> cunpack st = map zlen ins ->
       crc_ok (cdigest st) ->
       flush cstep cflush st = Ok (st', n) ->
-      exists w,
-        cout st' = cout st ++ w /\ cout st' = Echain E s0s X /\ n = zlen w /\
-        cunpack st' = map zlen (Einputs E s0s X) /\
+      exists w ins',
+        cout st' = cout st ++ w /\ Echain E s0s X ins' (cout st') /\ n = zlen w /\
+        cunpack st' = map zlen ins' /\
         cpacksize st' = cpacksize st + zlen w /\
         cdigest st' = crc32_update (cdigest st) w /\ cblock st' = cblock st.
     Proof.
       intros Hwf Hec Hun Hdg H. unfold flush in H. rewrite Hun in H.
-      destruct (flush_pipe_spec s0s _ X ins _ Hec Hwf None) as (ss' & d' & Hfp & Hz & _ & _).
+      destruct (flush_pipe_spec s0s _ X ins _ Hec Hwf None) as (ss' & ins' & d' & Hfp & Hz & _ & _).
       rewrite Hfp in H. cbn [bind obytes] in H, Hz. rewrite app_nil_r in *.
       destruct d' as [data|]; injection H as <- <-; cbn [cout cunpack cpacksize cdigest cblock obytes] in *.
-      - exists data. repeat split; try assumption; reflexivity.
-      - exists []. rewrite app_nil_r in *. rewrite zlen_nil.
+      - exists data, ins'. repeat split; try assumption; reflexivity.
+      - exists [], ins'. rewrite app_nil_r in *. rewrite zlen_nil.
         repeat split; try assumption; try lia. symmetry. apply crc32_update_nil. exact Hdg.
     Qed.
 
@@ -729,19 +737,20 @@ Section CompProofs.
       exists r, flush cstep cflush st = Ok r.
     Proof.
       intros Hwf Hec Hun. unfold flush. rewrite Hun.
-      destruct (flush_pipe_spec s0s _ X ins _ Hec Hwf None) as (ss' & d' & Hfp & _).
+      destruct (flush_pipe_spec s0s _ X ins _ Hec Hwf None) as (ss' & ins' & d' & Hfp & _).
       rewrite Hfp. cbn [bind]. destruct d'; eexists; reflexivity.
     Qed.
 
     (* ==== THE PACKED STREAM ============================================== *)
     (* for every block size (<> 0), every read schedule of every member's source, every
        number of members and every fuel: if the session returns at all, the bytes written
-       to the archive are E_n(... E_1(concatenation of the members' bytes)) *)
+       to the archive are an encoding by the chain, stage after stage, of the concatenation
+       of the members' bytes *)
     Theorem compress_chain (s0s : list cst) (bsz : Z) (fuel : nat)
             (ms : list (bytes * list nat)) (st : cstt) (infos : list (Z * Z * Z)) (n : Z) :
       Forall wf s0s -> bsz <> 0 ->
       write_session cstep cflush fuel (cinit s0s bsz) ms = Ok (st, infos, n) ->
-      cout st = Echain E s0s (concat (map fst ms)).
+      exists ins, Echain E s0s (concat (map fst ms)) ins (cout st).
     Proof.
       intros Hwf Hb H. unfold write_session in H.
       destruct (members_loop cstep fuel (cinit s0s bsz) ms) as [[st1 infos1]|e] eqn:Hm; [|discriminate].
@@ -752,8 +761,8 @@ Section CompProofs.
       destruct (members_loop_spec s0s fuel ms (cinit s0s bsz) st1 infos1 [] _
                   Hb (ecreach_init s0s) (eq_sym (map_map _ _ _)) H0 Hm)
         as (ins1 & w1 & Hec1 & Hun1 & _ & _ & _ & _ & _ & _ & Hdg1 & _).
-      destruct (flush_spec s0s st1 st2 n2 _ ins1 Hwf Hec1 Hun1 Hdg1 Hf) as (w & _ & Hz & _).
-      exact Hz.
+      destruct (flush_spec s0s st1 st2 n2 _ ins1 Hwf Hec1 Hun1 Hdg1 Hf) as (w & ins' & _ & Hz & _).
+      exists ins'. exact Hz.
     Qed.
 
     (* ==== SIZES AND CRCS ================================================== *)
@@ -770,7 +779,7 @@ Section CompProofs.
       cpacksize st = zlen (cout st) /\
       cdigest st = crc32 (cout st) /\
       zsum (map info_out infos) + n = cpacksize st /\
-      cunpack st = map zlen (Einputs E s0s (concat (map fst ms))).
+      exists ins, Echain E s0s (concat (map fst ms)) ins (cout st) /\ cunpack st = map zlen ins.
     Proof.
       intros Hwf Hb H. unfold write_session in H.
       destruct (members_loop cstep fuel (cinit s0s bsz) ms) as [[st1 infos1]|e] eqn:Hm; [|discriminate].
@@ -782,12 +791,12 @@ Section CompProofs.
                   Hb (ecreach_init s0s) (eq_sym (map_map _ _ _)) H0 Hm)
         as (ins1 & w1 & Hec1 & Hun1 & Hin & Hcr & Hco1 & Hs1 & Hps1 & Hdg1 & Hdgok1 & _).
       destruct (flush_spec s0s st1 st2 n2 _ ins1 Hwf Hec1 Hun1 Hdgok1 Hf)
-        as (w & Hco2 & _ & Hn & Hun2 & Hps2 & Hdg2 & _).
+        as (w & ins2 & Hco2 & Hz2 & Hn & Hun2 & Hps2 & Hdg2 & _).
       cbn [cinit cout cpacksize cdigest] in *. simpl in Hco1.
       split; [exact Hin|]. split; [exact Hcr|].
       split; [rewrite Hco2, Hco1, zlen_app; lia|].
       split; [rewrite Hdg2, Hdg1, Hco2, Hco1; unfold crc32; symmetry; apply crc32_update_app; exact H0|].
-      split; [rewrite Hs1; lia|]. exact Hun2.
+      split; [rewrite Hs1; lia|]. exists ins2. split; [exact Hz2|exact Hun2].
     Qed.
 
     (* the session raises nothing and its block loops terminate *)
@@ -825,6 +834,14 @@ Section CompProofs.
     Qed.
 
   End Contract.
+
+  (* encoders that are functions of their input stream *)
+  Lemma Echain_fun (f : cst -> bytes -> bytes) (s0s : list cst) (x : bytes) (ins : list bytes) (z : bytes) :
+    Echain (fun s a b => b = f s a) s0s x ins z -> z = Echainf f s0s x /\ ins = Einputsf f s0s x.
+  Proof.
+    induction 1 as [x|s t x y ins z Hs Hc [IH1 IH2]]; [split; reflexivity|].
+    subst y. cbn [Echainf Einputsf]. split; [exact IH1|now rewrite IH2].
+  Qed.
 
 End CompProofs.
 
@@ -897,7 +914,7 @@ Qed.
 Theorem toy_enc_contract (s0 s : toy_state) (cin cout : bytes) :
   True -> ereach toy_cstep s0 s cin cout -> cout ++ snd (toy_cflush s) = toy_E s0 cin.
 Proof.
-  intros _ H. apply toy_ereach_inv in H. destruct H as (Ht & Hk & H).
+  intros _ H.  apply toy_ereach_inv in H. destruct H as (Ht & Hk & H).
   destruct s as [[t k] p]. destruct s0 as [[t0 k0] p0].
   cbn [fst snd] in Ht, Hk, H. subst t k. cbv zeta in H.
   unfold toy_cflush, toy_E.
@@ -922,10 +939,13 @@ Theorem toy_compress_chain (s0s : list toy_state) (bsz : Z) (fuel : nat)
         (ms : list (bytes * list nat)) (st : cstate toy_state) (infos : list (Z * Z * Z)) (n : Z) :
   bsz <> 0 ->
   write_session toy_cstep toy_cflush fuel (cinit s0s bsz) ms = Ok (st, infos, n) ->
-  cout st = Echain toy_E s0s (concat (map fst ms)).
+  cout st = Echainf toy_E s0s (concat (map fst ms)).
 Proof.
-  apply (compress_chain toy_state toy_cstep toy_cflush toy_E (fun _ => True) toy_enc_contract).
-  apply Forall_forall. intros; exact I.
+  intros Hb H.
+  destruct (compress_chain toy_state toy_cstep toy_cflush (fun s a b => b = toy_E s a) (fun _ => True)
+              toy_enc_contract s0s bsz fuel ms st infos n) as (ins & Hc); [|exact Hb|exact H|].
+  - apply Forall_forall. intros; exact I.
+  - apply Echain_fun in Hc. apply Hc.
 Qed.
 
 (* ---- the `unpacksizes` property on the three chain shapes the constructor accepts -- *)
